@@ -93,7 +93,7 @@ def run_dx(variant, cfg_lines, tag, layers, oracle, api='genbbsub', phases=1, de
 def replay_text(res, v, api):
     c = res['config']
     lines = ['%s %s %d %d %g %g' % (c['cat'], c['name'], c['level'], c['mode'], c['e1'] if c['e1'] is not None else -1, c['e2'] if c['e2'] is not None else -1),
-             str(vlib.SEED), api + (' nme2' if res.get('key', '').endswith(':nme2') else '') + (' squeeze=%s' % c['squeeze'] if c.get('squeeze') else '')]
+             str(vlib.SEED), api + (' nme2' if res.get('key', '').endswith(':nme2') else '') + (' nme3' if res.get('key', '').endswith(':nme3') else '') + (' squeeze=%s' % c['squeeze'] if c.get('squeeze') else '')]
     if c.get('hist'):
         lines[0] += ' HIST ' + c['hist']
     if c.get('pre'):
